@@ -224,6 +224,12 @@ class Evidence:
 # ------------------------------------------------------------------------------------------------
 # sub-check descriptors
 
+def deep(quick, thorough):
+    """size bound of a generator: the thorough tier explores deeper (bigger grids, matrices, histories); VERIF_TIER is exported
+    by vf.run to its workers.  Replays carry the case itself and never consult this."""
+    return thorough if os.environ.get("VERIF_TIER") == "thorough" else quick
+
+
 class Given:
     """Input/configuration property: strategy() -> case ; run(case, ctx)."""
     kind = "given"
